@@ -214,6 +214,12 @@ def run(chk, repo: Repo):
         lp = node.ast
         LB = statements(lp, nested=True)
         bb, _ = unify(["$xs[:,$s]=$xmap.parameters+$L@np.random.randn($n)"], LB)
+        if bb is None:      # the mean / the normal draw held in temporaries of the loop body
+            for alt in (["$m=$xmap.parameters", "$xs[:,$s]=$m+$L@np.random.randn($n)"], ["$z=np.random.randn($n)", "$xs[:,$s]=$xmap.parameters+$L@$z"],
+                        ["$m=$xmap.parameters", "$z=np.random.randn($n)", "$xs[:,$s]=$m+$L@$z"]):
+                bb, _ = unify(alt, LB)
+                if bb is not None:
+                    break
         if bb is None:
             problems.append("draw = MAP parameters + L @ N(0, I) (`$xs[:,$s]=$xmap.parameters+$L@np.random.randn($n)` has no match in the loop)")
         else:
